@@ -170,6 +170,11 @@ class Lane(LaneBase):
     def signature(self, case, failure):
         return 'C02:' + hashlib.sha1(failure.split(' after ')[0].encode()).hexdigest()[:12]
 
+    def widen(self, case):
+        if 'ops' in case and isinstance(case.get('ops'), list) and case.get('kind', 'hist') == 'hist':
+            return histories.widen_history(case)
+        return []
+
     def shrink(self, case, still_fails):
         if 'ctor' in case:
             return case
